@@ -70,7 +70,7 @@ func compareMetric(prop string, c MetricCase, recs []model.Rec, ev *model.Evalua
 		v.Sig = prop + "/" + v.Sig
 		return v
 	}
-	if d := canon.DiffPointMaps(got, want.Points); d != "" {
+	if d := canon.DiffPointMapsTol(got, want.Points, want.Tolerance()); d != "" {
 		return evid.Viol(prop+"/wrong-value", "%s %s (%s): %s", c.Text, what, fmt.Sprintf("start=%d end=%d step=%d", p.Start, p.End, p.Step), d)
 	}
 	return nil
